@@ -65,6 +65,8 @@ pub enum R {
     End,
     WordB,
     NotWordB,
+    WordStart,
+    WordEnd,
     Cat(Vec<R>),
     Alt(Vec<R>),
     Group(Box<R>),
@@ -74,13 +76,15 @@ pub enum R {
     Backref(usize),
     KeepOut,
     CondGroup(usize, Box<R>, Box<R>),
+    /// `(?(N))` alone: succeeds (matching nothing) iff group N has matched
+    GroupTest(usize),
     CondExpr(Box<R>, Box<R>, Box<R>),
 }
 
 // ---------------------------------------------------------------- rendering
 
 fn is_atom(e: &R) -> bool {
-    matches!(e, R::Lit(_) | R::Any | R::AnyNl | R::LitCi(_) | R::AnyNegS | R::LitNegI(_) | R::Class(..) | R::Group(_) | R::Look(..) | R::Atomic(_) | R::Backref(_) | R::CondGroup(..) | R::CondExpr(..))
+    matches!(e, R::Lit(_) | R::Any | R::AnyNl | R::LitCi(_) | R::AnyNegS | R::LitNegI(_) | R::Class(..) | R::Group(_) | R::Look(..) | R::Atomic(_) | R::Backref(_) | R::CondGroup(..) | R::GroupTest(_) | R::CondExpr(..))
 }
 
 thread_local! {
@@ -138,6 +142,8 @@ pub fn render(e: &R, out: &mut String) {
         R::End => out.push('$'),
         R::WordB => out.push_str("\\b"),
         R::NotWordB => out.push_str("\\B"),
+        R::WordStart => out.push_str("\\<"),
+        R::WordEnd => out.push_str("\\>"),
         R::Cat(v) => {
             for c in v {
                 if matches!(c, R::Alt(_)) {
@@ -230,6 +236,17 @@ pub fn render(e: &R, out: &mut String) {
             render_branches(t, f, out);
             out.push(')');
         }
+        R::GroupTest(n) => {
+            // the named spellings also put ignorable text behind the condition: a comment group is not a branch
+            let mode = NAMED.with(|x| x.get());
+            if mode == 1 {
+                out.push_str(&format!("(?(<g{}>)(?#c))", n));
+            } else if mode == 2 {
+                out.push_str(&format!("(?(<{}>)(?#c)(?#d))", n + 1));
+            } else {
+                out.push_str(&format!("(?({}))", n));
+            }
+        }
         R::CondExpr(c, t, f) => {
             out.push_str("(?(");
             render(c, out);
@@ -266,6 +283,7 @@ pub fn count_groups(e: &R) -> usize {
         R::Group(c) => 1 + count_groups(c),
         R::Rep(c, ..) | R::Look(c, _) | R::Atomic(c) => count_groups(c),
         R::CondGroup(_, t, f) => count_groups(t) + count_groups(f),
+        R::GroupTest(_) => 0,
         R::CondExpr(c, t, f) => count_groups(c) + count_groups(t) + count_groups(f),
         _ => 0,
     }
@@ -303,6 +321,7 @@ fn lens(e: &R) -> (usize, Option<usize>) {
         }
         R::Backref(_) => (0, None),
         R::CondGroup(_, t, f) => lens(&R::Alt(vec![(**t).clone(), (**f).clone()])),
+        R::GroupTest(_) => (0, Some(0)),
         R::CondExpr(c, t, f) => lens(&R::Alt(vec![R::Cat(vec![(**c).clone(), (**t).clone()]), (**f).clone()])),
         _ => (0, Some(0)),
     }
@@ -373,6 +392,8 @@ impl<'t> M<'t> {
             R::End => ix == self.text.len() && k(self, ix),
             R::WordB => (is_word(self.prev_char(ix)) != is_word(self.next_char(ix))) && k(self, ix),
             R::NotWordB => (is_word(self.prev_char(ix)) == is_word(self.next_char(ix))) && k(self, ix),
+            R::WordStart => (!is_word(self.prev_char(ix)) && is_word(self.next_char(ix))) && k(self, ix),
+            R::WordEnd => (is_word(self.prev_char(ix)) && !is_word(self.next_char(ix))) && k(self, ix),
             R::Cat(v) => self.cat(v, gbase, ix, k),
             R::Alt(v) => {
                 let mut g = gbase;
@@ -501,6 +522,7 @@ impl<'t> M<'t> {
                     self.m(f, gbase + count_groups(t), ix, k)
                 }
             }
+            R::GroupTest(n) => self.caps[*n - 1].is_some() && k(self, ix),
             R::CondExpr(c, t, f) => {
                 let saved = self.caps.clone();
                 let keep = self.keep;
@@ -699,7 +721,9 @@ impl Gen {
     }
 
     fn quant(&mut self) -> (usize, Option<usize>, Mode) {
-        let (lo, hi) = match self.rng.below(8) {
+        let (lo, hi) = match self.rng.below(10) {
+            8 => (1, Some(1)),
+            9 => (0, Some(2)),
             0 | 1 => (0, None),
             2 | 3 => (1, None),
             4 => (0, Some(1)),
@@ -794,7 +818,8 @@ impl Gen {
             27 => match self.rng.below(12) {
                 0 => R::Start,
                 1 => R::End,
-                2 | 3 => R::WordB,
+                2 => R::WordB,
+                3 => if self.rng.below(2) == 0 { R::WordStart } else { R::WordEnd },
                 4 => R::NotWordB,
                 5 => R::StartA,
                 6 => R::EndZ,
@@ -807,6 +832,9 @@ impl Gen {
             _ => {
                 if cx.no_cond {
                     return self.atom();
+                }
+                if self.closed > 0 && self.rng.below(8) == 0 {
+                    return R::GroupTest(1 + self.rng.below(self.closed));
                 }
                 if self.closed > 0 && self.rng.below(3) != 0 {
                     let n = 1 + self.rng.below(self.closed);
@@ -842,6 +870,11 @@ fn acceptable(e: &R) -> bool {
             R::Look(c, k) => walk(c, open, next, ok, cut || matches!(k, LookKind::Ahead | LookKind::Behind)),
             R::Atomic(c) => walk(c, open, next, ok, true),
             R::Backref(n) => {
+                if open.contains(&(n - 1)) || *n > *next {
+                    *ok = false;
+                }
+            }
+            R::GroupTest(n) => {
                 if open.contains(&(n - 1)) || *n > *next {
                     *ok = false;
                 }
@@ -893,6 +926,25 @@ fn fixed_patterns() -> Vec<R> {
             v.push(Cat(vec![Group(bx(Rep(bx(body2), lo, hi, mode.clone()))), Backref(1)]));
         }
     }
+    // a commit directly inside a commit, followed by an easy suffix that fails after the first choice: the inner cut is not redundant
+    {
+        let choice = || Alt(vec![Group(bx(a())), Cat(vec![a(), b()])]);
+        let inner: Vec<R> = vec![Atomic(bx(choice())), Rep(bx(choice()), 0, Some(1), Mode::Possessive), Rep(bx(choice()), 1, None, Mode::Possessive)];
+        for i in &inner {
+            let body = Cat(vec![i.clone(), c()]);
+            v.push(Cat(vec![Atomic(bx(body.clone())), opt(Backref(1))]));
+            v.push(Cat(vec![Look(bx(body.clone()), LookKind::Ahead), a(), b(), opt(Backref(1))]));
+            v.push(Cat(vec![Rep(bx(body.clone()), 1, Some(2), Mode::Possessive), opt(Backref(1))]));
+            v.push(Cat(vec![Atomic(bx(Cat(vec![Lit('-'), i.clone(), c()]))), opt(Backref(1))]));
+        }
+        // word-boundary halves as conditions and next to choices
+        for wb in [WordStart, WordEnd, WordB, NotWordB] {
+            v.push(CondExpr(bx(wb.clone()), bx(Lit('-')), bx(a())));
+            v.push(Cat(vec![Start, CondExpr(bx(wb.clone()), bx(Lit('!')), bx(Lit('-')))]));
+            v.push(Cat(vec![plus(Any), wb.clone(), Lit('-')]));
+            v.push(Cat(vec![Group(bx(plus(a()))), Lit(' '), CondExpr(bx(wb.clone()), bx(Lit('#')), bx(Lit('+')))]));
+        }
+    }
     // conditionals: every combination of empty / easy-with-choices / hard branches, followed by something that needs backtracking
     let branches = vec![
         Empty,
@@ -931,7 +983,7 @@ fn texts() -> Vec<String> {
         out.extend(next.iter().cloned());
         layer = next;
     }
-    for t in ["ab\nab", "A", "aA", "Ab", "BA", "É", "aÉ", "a\nb", "\n", "a\n", "\na", "ab\n", "a\n\nb", "A\nb", "b\na\n", "\u{1c6}", "\u{1c4}a", "a\u{1c5}", "\u{1c6}b\u{1c4}"] {
+    for t in ["ab\nab", "A", "aA", "Ab", "BA", "É", "aÉ", "a\nb", "\n", "a\n", "\na", "ab\n", "a\n\nb", "A\nb", "b\na\n", "\u{1c6}", "\u{1c4}a", "a\u{1c5}", "\u{1c6}b\u{1c4}", "-", "!", "ab +", "ab #", "a -", "- a", "-a-"] {
         out.push(t.into());
     }
     out.push("aabbaabb".into());
@@ -972,7 +1024,7 @@ fn compare(e: &R, pat: &str, re: &Regex, text: &str, budget: &mut Budget) -> Opt
 /// a size that is constant by construction (fixed-size pieces, fixed counts, equally long alternatives / branches); None = not obviously so
 fn clearly_const(e: &R) -> Option<usize> {
     match e {
-        R::Empty | R::Start | R::End | R::WordB | R::NotWordB | R::KeepOut | R::Look(..) | R::StartA | R::StartAm | R::EndZ | R::EndZm | R::MlStart | R::MlEnd | R::StartNegM => Some(0),
+        R::Empty | R::Start | R::End | R::WordB | R::NotWordB | R::WordStart | R::WordEnd | R::KeepOut | R::Look(..) | R::StartA | R::StartAm | R::EndZ | R::EndZm | R::MlStart | R::MlEnd | R::StartNegM => Some(0),
         R::Lit(_) | R::Any | R::Class(..) | R::AnyNl | R::AnyNegS | R::LitCi(_) | R::LitNegI(_) => Some(1),
         R::Cat(v) => v.iter().map(clearly_const).try_fold(0usize, |a, b| b.map(|b| a + b)),
         R::Alt(v) => {
@@ -982,6 +1034,7 @@ fn clearly_const(e: &R) -> Option<usize> {
         R::Group(c) | R::Atomic(c) => clearly_const(c),
         R::Rep(c, lo, hi, _) => if *hi == Some(*lo) { clearly_const(c).map(|x| x * lo) } else { None },
         R::Backref(_) => None,
+        R::GroupTest(_) => Some(0),
         R::CondGroup(_, t, f) => { let a = clearly_const(t)?; if clearly_const(f)? == a { Some(a) } else { None } }
         R::CondExpr(c, t, f) => { let a = clearly_const(c)? + clearly_const(t)?; if clearly_const(f)? == a { Some(a) } else { None } }
     }
@@ -1010,7 +1063,7 @@ fn lookbehinds_clearly_const(e: &R) -> bool {
 }
 fn has_refs(e: &R) -> bool {
     match e {
-        R::Backref(_) | R::CondGroup(..) => true,
+        R::Backref(_) | R::CondGroup(..) | R::GroupTest(_) => true,
         R::Cat(v) | R::Alt(v) => v.iter().any(has_refs),
         R::Group(c) | R::Atomic(c) | R::Rep(c, ..) | R::Look(c, _) => has_refs(c),
         R::CondExpr(c, t, f) => has_refs(c) || has_refs(t) || has_refs(f),
